@@ -18,6 +18,8 @@ import hashlib
 import itertools
 import os
 import random
+
+import numpy as np
 import sys
 import threading
 import warnings
@@ -60,13 +62,50 @@ def make_chunks(seed, k, n):
         for j in range(1, n):
             pj = pipecheck.twin_prms(rng, prms0, j)
             out[j] = (list(rows0), pj)
+    if k % 5 == 2:
+        # every chunk of the set in the same non-canonical spelling; ceilometer ids 1, 2, ... (as ints) and one of them
+        # excluded from the base heights, so that the normalisation matters for the result
+        vr = random.Random(f'{seed}:c13variant:{k}')
+        variant = vr.choice(['int_ceilo', 'int_ceilo', 'float_type', 'obj_all'])
+        new = []
+        for rows_, prms_ in out:
+            names = sorted({r[0] for r in rows_})
+            m = {c: str(i + 1) for i, c in enumerate(names)}
+            rr_ = VRows((m[c], dt, h, t) for c, dt, h, t in rows_)
+            rr_.variant = variant
+            p_ = dict(prms_)
+            if len(names) > 1:
+                p_['EXCLUDE_FOR_BASE_HEIGHT_CALC'] = [m[names[-1]]]
+            elif 'EXCLUDE_FOR_BASE_HEIGHT_CALC' in p_:
+                p_['EXCLUDE_FOR_BASE_HEIGHT_CALC'] = [m.get(c, c) for c in p_['EXCLUDE_FOR_BASE_HEIGHT_CALC']]
+            new.append((rr_, p_))
+        out = new
     return out
+
+
+class VRows(list):
+    """Rows of a chunk together with the spelling of the caller's table (None = canonical dtypes)."""
+    variant = None
+
+
+def frame_of(rows):
+    """The caller's table: for some chunk sets every chunk comes with the same non-canonical spelling (integer
+    ceilometer ids, float hit types) that the checker has to normalise for every chunk anew."""
+    df = scenes.make_frame(rows)
+    v = getattr(rows, 'variant', None)
+    if v == 'int_ceilo':
+        df['ceilo'] = np.array([int(c) for c, *_ in rows], dtype='int64')
+    elif v == 'float_type':
+        df['type'] = df['type'].astype(float)
+    elif v == 'obj_all':
+        df = df.astype(object)
+    return df
 
 
 def isolated(rows, prms):
     with warnings.catch_warnings():
         warnings.simplefilter('ignore')
-        return metamorph.observe(scenes.run_scene(rows, prms))
+        return metamorph.observe(scenes.run_scene(rows, prms, frame=frame_of(rows)))
 
 
 def apply(chunk, op):
@@ -125,7 +164,7 @@ def _interleave(args):
     with warnings.catch_warnings():
         warnings.simplefilter('ignore')
         for sched in sched_slice:
-            chunks = [CeiloChunk(scenes.make_frame(r), prms=dict(p)) for r, p in specs]
+            chunks = [CeiloChunk(frame_of(r), prms=dict(p)) for r, p in specs]
             pos = [0] * n
             try:
                 for i in sched:
@@ -204,7 +243,7 @@ def _threads(args):
                 sys.settrace(baton.tracer(i))
             with warnings.catch_warnings():
                 warnings.simplefilter('ignore')
-                c = amp.run(scenes.make_frame(specs[i][0]), prms=dict(specs[i][1]))
+                c = amp.run(frame_of(specs[i][0]), prms=dict(specs[i][1]))
                 ob = observe_chunk(c)
             results[i] = ob
         except Exception as e:
@@ -258,7 +297,7 @@ def _locations(spec, root):
     try:
         with warnings.catch_warnings():
             warnings.simplefilter('ignore')
-            amp.run(scenes.make_frame(spec[0]), prms=dict(spec[1]))
+            amp.run(frame_of(spec[0]), prms=dict(spec[1]))
     finally:
         sys.settrace(None)
     return order
@@ -296,7 +335,7 @@ def _systematic(args):
                 try:
                     with warnings.catch_warnings():
                         warnings.simplefilter('ignore')
-                        out['a'] = observe_chunk(amp.run(scenes.make_frame(specs[a][0]), prms=dict(specs[a][1])))
+                        out['a'] = observe_chunk(amp.run(frame_of(specs[a][0]), prms=dict(specs[a][1])))
                 except Exception as e:
                     out['a'] = f'{type(e).__name__}: {e}'
                 finally:
@@ -309,7 +348,7 @@ def _systematic(args):
             try:
                 with warnings.catch_warnings():
                     warnings.simplefilter('ignore')
-                    out['b'] = observe_chunk(amp.run(scenes.make_frame(specs[b][0]), prms=dict(specs[b][1])))
+                    out['b'] = observe_chunk(amp.run(frame_of(specs[b][0]), prms=dict(specs[b][1])))
             except Exception as e:
                 out['b'] = f'{type(e).__name__}: {e}'
             resume.set()
